@@ -25,6 +25,7 @@ from django_evolution.signature import (AppSignature, FieldSignature, ModelSigna
 from django_evolution.utils.sql import SQLExecutor, NewTransactionSQL
 
 STRS = ['x', "it's", 'a"b', '100%', chr(92) + 'n', '']
+INTS = [0, -1, 7, 2 ** 63 - 1]
 
 
 class _Cursor(object):
@@ -62,13 +63,14 @@ def h_preview_equals_execute(k0: int, k1: int, k2: int, n: int, pk: int, pi: int
                              pb: bool) -> bool:
     """
     pre: 0 <= k0 <= 7 and 0 <= k1 <= 7 and 0 <= k2 <= 7 and 1 <= n <= 3
-    pre: 0 <= pk <= 2 and 0 <= ps <= 5
+    pre: 0 <= pk <= 2 and 0 <= ps <= 5 and 0 <= pi <= 3
+    pre: (pk == 0 or pi == 0) and (pk == 1 or ps == 0) and (pk == 2 or not pb)
     pre: hx.in_part(k0, k1)
     pre: not hx.excluded(k0, k1, k2, n, pk, pi, ps, pb)
     post: _
     """
     if pk == 0:
-        p = pi                      # any int: stays symbolic
+        p = hx.pick(INTS, pi)       # rendered into text, hence from a pool
     elif pk == 1:
         p = hx.pick(STRS, ps)
     else:
@@ -103,12 +105,12 @@ def h_preview_equals_execute(k0: int, k1: int, k2: int, n: int, pk: int, pi: int
 def h_preview_values(ps: int, pk: int, pi: int) -> bool:
     """The previewed INSERT, executed as plain text, stores the value the parametrised one stores.
 
-    pre: 0 <= ps <= 5 and 0 <= pk <= 1 and -2 ** 62 <= pi <= 2 ** 62
+    pre: 0 <= ps <= 5 and 0 <= pk <= 1 and 0 <= pi <= 3 and (pk == 0 or pi == 0) and (pk == 1 or ps == 0)
     pre: not hx.excluded(ps, pk, pi)
-    pre: not (hx.kf('c14_preview_quoting') and pk == 1 and ps in (1, 4))
+    pre: not (hx.kf('c14_preview_quoting') and pk == 1 and ps == 1)
     post: _
     """
-    p = hx.pick(STRS, ps) if pk else pi
+    p = hx.pick(STRS, ps) if pk else hx.pick(INTS, pi)
     sql = [('INSERT INTO "pv" ("v") VALUES (%s);', (p,))]
     with connection.cursor() as c:
         c.execute('DROP TABLE IF EXISTS "pv"')
